@@ -7,6 +7,9 @@ TB = ("Trusted: Coq 8.16.1 kernel (incl. vm_compute; no native_compute); tools/g
       "extraction with ExtrOcamlBasic only + OCaml glue; the model/code correspondence is differential testing, not a proof of model = code. "
       "All theorems of the Props file are closed under the global context (no axioms) unless stated.")
 
+SB = ("searchcore stream: the real engine (hooks on: scripted polls, full event trace) vs the extracted search model on cold searches, shuffled games with warm TT and full history, "
+      "stop injected at every poll index of small searches, fallback scenarios (stop at poll 0 / half-move clock 100 on seeds and playouts), TT-bypassed searches; the engine's answers are judged by extracted Coq monitors.")
+
 CHECKS = {
  'C08': dict(
   text="All clauses of C08 are Coq theorems about the model of record/probe/clear for every operation history (induction over the history): refinement to last-store-per-slot, probe soundness incl. bound types and windows, mate re-basing, retrievability, clear, no i32 overflow / sentinel. The model is tied to the code by regenerated constants and by an engine-vs-extracted-model comparison on collision-heavy histories; a Coq monitor proved to accept the model judges the engine's own answers.",
@@ -40,9 +43,9 @@ CHECKS = {
   note=TB + " PARTIAL: mirror symmetry and bound are not yet theorems (mirror symmetry needs the hypothesis 'no pawn on back ranks', see DESIGN.md).",
   tech="Coq proof (purity, side antisymmetry) + metamorphic stream on the engine", ref="DESIGN.md 6 C16"),
  'C03': dict(
-  text="Proved in Coq for every position, depth, TT content, history, poll schedule and stop point: search() terminates and prints info lines followed by exactly one bestmove; when the PV is empty (stop before the first root move completes, depth 0, half-move clock 100) the fallback answer is the first legal move; all moves print as well-formed UCI notation (finite reflection). The remaining clause -- a non-empty PV starts with a legal move (C03_pv_case, visible, not assumed) -- is decided per run by the extracted monitor on the engine's bestmove in every scenario incl. a stop at every poll index. searchcore stream: the real engine (hooks on: scripted polls, full event trace) vs the extracted search model on cold searches, shuffled games with warm TT and full history, stop injected at every poll index of small searches, TT-bypassed searches; the engine's answers are judged by extracted Coq monitors.",
-  note=TB + " PARTIAL: legality of pv_table[0][0] is not yet a theorem. Real-time arrival of `stop` (thread + channel + clock) is runtime; the model covers it as 'some poll observes it'. Findings F1, F2 fixed in /repo (d6061b3, ac47405).",
-  tech="Coq proof (termination, output shape, fallback, UCI syntax) + trace-exact model/engine correspondence + extracted monitor", ref="DESIGN.md 6 C03"),
+  text="Proved in Coq for every position (no well-formedness needed), depth, TT content, history, poll schedule and stop point k = 0,1,2,...: search() terminates and prints info lines followed by exactly one bestmove; whenever some generated move passes the legality test, that bestmove is a move the engine treats as legal -- generated and accepted by both legality paths (C03_bestmove_legal: the head of PV row 0 is only ever written with a generated move that make accepted; an empty PV falls back to the first legal move); every move prints as well-formed UCI notation (finite reflection). Rules-level legality of those moves is C01. " + SB,
+  note=TB + " Real-time arrival of `stop` (thread + channel + clock) is runtime; the model covers it as 'some poll observes it' for every poll index. Findings F1, F2 fixed in /repo (d6061b3, ac47405). Clock-based budgets: C10.",
+  tech="Coq proof (PV-head invariant through negamax for all schedules, termination, output shape, fallback, UCI syntax) + trace-exact correspondence + extracted monitor", ref="DESIGN.md 6 C03"),
  'C06': dict(
   text="Proved in Coq for every position / depth / TT / history / schedule: the search never exhausts the model's fuel (the ply guard bounds the recursion; part of the balance induction) and move ordering is a permutation. Per node (legal position, consistent key, reached from its parent by one legal move or a pass while not in check, ply limit) and per verdict (no legal move; mate iff in check) the statement C06_full (visible, not assumed) is decided per run by the extracted monitor mon_nodes on the real engine's hook trace, and engine trace = model trace event by event. searchcore stream: the real engine (hooks on: scripted polls, full event trace) vs the extracted search model on cold searches, shuffled games with warm TT and full history, stop injected at every poll index of small searches, TT-bypassed searches; the engine's answers are judged by extracted Coq monitors.",
   note=TB + " PARTIAL: the per-node invariant is monitored on generated runs, not proved.",
@@ -56,9 +59,9 @@ CHECKS = {
   note=TB + " PARTIAL: 'promptly' -- quiescence never tests the flag, so bounded-but-not-small work remains after a stop; the polling cadence is monitored, not proved. Real-time arrival of stop is runtime.",
   tech="Coq proof (frame invariant with ghost snapshot, all schedules) + trace monitor + correspondence", ref="DESIGN.md 6 C09"),
  'C12': dict(
-  text="Proved in Coq for every position, depth, TT, history and schedule: info lines of one search have strictly increasing depths and non-decreasing node counts and end with one bestmove; the rendered line has exactly the required shape. PV legality (C12_pv_legal_full, visible, not assumed) is decided per run: every PV of every info line of the real engine is replayed on the rules-of-chess specification (cold/warm TT, histories); info text of engine and model are compared literally (time masked). searchcore stream: the real engine (hooks on: scripted polls, full event trace) vs the extracted search model on cold searches, shuffled games with warm TT and full history, stop injected at every poll index of small searches, TT-bypassed searches; the engine's answers are judged by extracted Coq monitors.",
-  note=TB + " PARTIAL: PV legality is not yet a theorem; the real print! is tied to the model's renderer by textual comparison only.",
-  tech="Coq proof (monotone depths/nodes, format) + extracted legal-line monitor + correspondence", ref="DESIGN.md 6 C12"),
+  text="Proved in Coq for every position (no well-formedness needed), depth, TT content (cold or warm), history and schedule: whenever a negamax call returns a value strictly inside its window and is not stopped, its PV row is a line of moves each generated in the position it is played from and accepted by make (fuel induction: a PV node never returns from the TT; a move enters the row only after a full-window child search whose negated result lies inside (ta, beta); everything else returns beta or <= alpha) -- hence the PV of every printed info line is such a line (C12_pv_legal); depths strictly increase, node counts do not decrease, and the rendered line has exactly the required shape. Rules-level legality of generated-and-made moves is C01; per run every PV of the real engine is also replayed on the rules-of-chess specification. " + SB,
+  note=TB + " The real print! is tied to the model's renderer by textual comparison (time masked).",
+  tech="Coq proof (PV-legality invariant by fuel induction, all TT contents and schedules; monotone depths/nodes; format) + extracted legal-line monitor + correspondence", ref="DESIGN.md 6 C12"),
  'C17': dict(
   text="Proved in Coq for every position, depth, TT content, history, poll schedule and stop point: every search (and every single call of negamax / quiescence) ends with ply and repetition index restored, the recorded history prefix and table length untouched, counters monotone; the position is an immutable value in the model. Per run the driver compares all 18 fields of the caller's Game and the repetition table before/after every search of every scenario (incl. every stop point). searchcore stream: the real engine (hooks on: scripted polls, full event trace) vs the extracted search model on cold searches, shuffled games with warm TT and full history, stop injected at every poll index of small searches, TT-bypassed searches; the engine's answers are judged by extracted Coq monitors.",
   note=TB + " Modelled boundary: repetition table capacity 1000 (a write beyond it panics in Rust, is a no-op in the model; unreachable below ~930 plies of history). UCI-level commands (perft, eval, d, isready) are covered by C13's session model when built.",
